@@ -31,7 +31,7 @@ Definition tgt_others (s : srcs) :=
 Definition stateless (tgt : srcs -> nat) (f : srcs -> nat -> res eerr N) : method srcs unit N :=
   {| target := tgt;
      recover := fun _ _ _ _ => Ok tt;
-     step := fun s _ i => let! o := f s i in Ok (tt, o) |}.
+     step := fun s => let g := f s in fun _ i => let! o := g i in Ok (tt, o) |}.
 
 (* F2 (+ rolling_count): the running value IS the last output.  [keep]: the value lives in a
    closure-captured Option that survives batches of one call (all_time_*, cumulative_count_from);
@@ -46,7 +46,7 @@ Definition running (tgt : srcs -> nat) (init : srcs -> N) (upd : srcs -> N -> na
        | Some st => if keep then Ok st else Ok (prev_out (init s) outs k)
        | None => Ok (prev_out (init s) outs k)
        end;
-     step := fun s st i => let! v := upd s st i in Ok (v, v) |}.
+     step := fun s => let g := upd s in fun st i => let! v := g st i in Ok (v, v) |}.
 
 Definition ok (n : N) : res eerr N := Ok n.
 
@@ -136,9 +136,9 @@ Definition m_change := stateless tgt1 (fun s i =>
 (* lookback.rs:330 compute_lookback: output[i] = source[window_starts[i]].  Modelled under the
    documented precondition (starts non-decreasing, starts[i] <= i); outside it the real code indexes
    relative to the batch's first start and may panic depending on the batch split. *)
-Definition m_lookback := stateless tgt2 (fun s i =>
+Definition m_lookback := stateless tgt2 (fun s => let n0 := slen s 0 in fun i =>
   let st := N.to_nat (at_ (sn s 1) i) in
-  if Nat.ltb st (slen s 0) then Ok (at_ (sn s 0) st) else Panic).
+  if Nat.ltb st n0 then Ok (at_ (sn s 0) st) else Panic).
 
 (* ---------------------------------------------------------------- F4 fixed window *)
 (* statistics.rs:119 compute_sum: prev_sum re-read from the last output per batch, leaving cursor
@@ -148,11 +148,11 @@ Definition m_sum : method srcs (N * nat) N :=
      recover := fun s outs k c =>
        let pos0 := match c with Some (_, p) => p | None => O end in
        Ok (prev_out 0 outs k, Nat.max pos0 (N.to_nat (ni k - par s)));
-     step := fun s st i =>
+     step := fun s => let n0 := slen s 0 in fun st i =>
        let '(ps, pos) := st in
        let v := at_ (sn s 0) i in
        if par s <=? ni i then
-         if Nat.ltb pos (slen s 0) then
+         if Nat.ltb pos n0 then
            let old := at_ (sn s 0) pos in
            if old <=? ps then let sum := ps - old + v in Ok ((sum, S pos), sum) else Err Underflow
          else Panic
@@ -213,15 +213,15 @@ Definition m_rolling_sum : method srcs (N * N * nat) N :=
        | S k' => let ps := at_ (sn s 1) k' in
                  Ok (at_ outs k', ps, Nat.min (Nat.max pos0 (N.to_nat ps)) (slen s 0))
        end;
-     step := fun s st i =>
+     step := fun s => let n0 := slen s 0 in fun st i =>
        let '(rs, prev_start, pos) := st in
        let rs1 := rs + at_ (sn s 0) i in
        let start := at_ (sn s 1) i in
        if prev_start <? start then
          let n := N.to_nat (start - prev_start) in
-         let n' := Nat.min n (slen s 0 - pos) in            (* Cursor::fold clips at len *)
+         let n' := Nat.min n (n0 - pos) in                  (* Cursor::fold clips at len *)
          let leaving := sum_range (sn s 0) pos n' in
-         if leaving <=? rs1 then let r := rs1 - leaving in Ok ((r, start, (pos + n')%nat), r) else Panic
+         if leaving <=? rs1 then let r := rs1 - leaving in Ok ((r, start, (n' + pos)%nat), r) else Panic
        else Ok ((rs1, prev_start, pos), rs1) |}.
 (* statistics.rs:578 compute_rolling_monotonic_from_starts *)
 Fixpoint pop_front_lt (ws : N) (d : list (nat * N)) : list (nat * N) :=
@@ -261,30 +261,33 @@ Definition group_sum (keep : N -> bool) (l : list N) (from n : nat) : N :=
 Definition sum_from_indexes (keep : N -> bool) : method srcs nat N :=
   {| target := fun s => slen s 2;
      recover := fun s outs k c => Ok (N.to_nat (at_ (sn s 1) k));
-     step := fun s pos g =>
+     step := fun s => let n0 := slen s 0 in fun pos g =>
        let c := N.to_nat (at_ (sn s 2) g) in
-       if Nat.leb (pos + c) (slen s 0) then Ok ((pos + c)%nat, group_sum keep (sn s 0) pos c) else Panic |}.
+       let pos' := (c + pos)%nat in       (* small operand first: unary addition copies its first argument *)
+       if Nat.leb pos' n0 then Ok (pos', group_sum keep (sn s 0) pos c) else Panic |}.
 Definition m_sum_fi := sum_from_indexes (fun _ => true).
 Definition m_fsum_fi := sum_from_indexes (fun v => v mod 2 =? 0).        (* harness filter: even values *)
 
 (* aggregates.rs:391 compute_count_from_indexes_with(first_indexes = source 1, other_to_else =
    source 0): out[g] = count_fn(first[g], first[g+1] or other_to_else.len() for the last group);
    `next_first - first` is an unchecked usize subtraction *)
-Definition next_first (s : srcs) (g : nat) : N :=
-  if Nat.ltb (S g) (slen s 1) then at_ (sn s 1) (S g) else ni (slen s 0).
-Definition m_count_fi := stateless (fun s => slen s 1) (fun s g =>
-  let f := at_ (sn s 1) g in let n := next_first s g in if f <=? n then Ok (n - f) else Panic).
+Definition next_first (s : srcs) (n1 : nat) (other_len : N) (g : nat) : N :=
+  if Nat.ltb (S g) n1 then at_ (sn s 1) (S g) else other_len.
+Definition m_count_fi := stateless (fun s => slen s 1) (fun s =>
+  let n1 := slen s 1 in let ol := ni (slen s 0) in fun g =>
+  let f := at_ (sn s 1) g in let n := next_first s n1 ol g in if f <=? n then Ok (n - f) else Panic).
 (* filtered variant with filter = |i| i % 2 == 0: number of even i in [first, next) *)
 Definition evens_below (n : N) : N := (n + 1) / 2.
-Definition m_fcount_fi := stateless (fun s => slen s 1) (fun s g =>
-  let f := at_ (sn s 1) g in let n := next_first s g in
+Definition m_fcount_fi := stateless (fun s => slen s 1) (fun s =>
+  let n1 := slen s 1 in let ol := ni (slen s 0) in fun g =>
+  let f := at_ (sn s 1) g in let n := next_first s n1 ol g in
   Ok (if f <=? n then evens_below n - evens_below f else 0)).
 
 (* transforms.rs:268 compute_indirect_sequential(source1 = keys = source 1, source2 = source 0):
    out[i] = source2[source1[i]].  Modelled under the documented precondition (keys non-decreasing),
    where the persistent cursor and the duplicate-key shortcut return exactly source2[key]. *)
-Definition m_indirect := stateless (fun s => slen s 1) (fun s i =>
-  let k := N.to_nat (at_ (sn s 1) i) in if Nat.ltb k (slen s 0) then Ok (at_ (sn s 0) k) else Panic).
+Definition m_indirect := stateless (fun s => slen s 1) (fun s => let n0 := slen s 0 in fun i =>
+  let k := N.to_nat (at_ (sn s 1) i) in if Nat.ltb k n0 then Ok (at_ (sn s 0) k) else Panic).
 
 (* transforms.rs:316 compute_first_per_index(other: item -> group, non-decreasing): only the
    from-scratch semantics is modelled (the method has its own resume logic outside compute_init):
